@@ -200,7 +200,7 @@ def fid_map(top):
 # --------------------------------------------------------------------------- workload
 
 def leaf(sl):
-    return scen.leaf_do(sl) .replace('echo "leaf $1" > "$3"', '[ "$RV_FAIL" != "$1" ] || { echo "E $1 $$ 3" >&9; exit 3; }\necho "leaf $1 $(cat src 2>/dev/null | head -c 20)" > "$3"')
+    return scen.leaf_do(sl) .replace('echo "leaf $1" > "$3"', '[ "$RV_FAIL" != "$1" ] || { [ -z "$RV_FAIL_DIR" ] || { mkdir "$3" && echo x > "$3/left"; }; echo "E $1 $$ 3" >&9; exit 3; }\necho "leaf $1 $(cat src 2>/dev/null | head -c 20)" > "$3"')
 
 
 def make_files(rnd):
@@ -318,8 +318,12 @@ def case(item):
                         c['argv'] = ['redo', '-j%d' % j] + argv[1:]
                     else:
                         c['slots'] = j
-                if abort == 'script-fails' and i == 0:
+                if abort in ('script-fails', 'script-fails-dir') and i == 0:
                     extra['RV_FAIL'] = rnd.choice(leaves[:4])
+                    if abort == 'script-fails-dir':
+                        # the failing script leaves a non-empty directory where its output was expected: redo has to clear it away
+                        # while the sibling jobs of that invocation are still running
+                        extra['RV_FAIL_DIR'] = '1'
                 if abort == 'stderr-closed' and i == 0 and phase == 'A':
                     c['head'] = rnd.choice([0, 1, 1, 2, 3])
                     if c['argv'][0] == 'redo' and rnd.random() < 0.4:
@@ -559,7 +563,7 @@ def main(tier):
     items = []
     for rep in range(2 if quick else 40):
         for ninv in ((2, 3, 5) if quick else (2, 3, 5, 8)):
-            for abort in (None, 'script-fails', 'error-exit', 'sigterm', 'sigkill', 'stderr-closed'):
+            for abort in (None, 'script-fails', 'script-fails-dir', 'error-exit', 'sigterm', 'sigkill', 'stderr-closed'):
                 items.append((ninv, rnd.choice([1, 2, 4]), rnd.choice(dl), abort, rnd.randrange(10 ** 6)))
     for rep in range(1 if quick else 10):
         for d in (None, 'after_exit=150', 'after_exit=80,after_commit=60', 'after_lock=60'):
